@@ -32,6 +32,13 @@ def hex_missing(st, t, n=None):
         out.append("lower")
     if n is not None and not st.holds(("eq", CallT("builtin:len", [t]), C(n))):
         out.append("len==%d" % n)
+    if out:
+        # not the literal conjunct list: decide the language of the string facts instead
+        from . import hexlang
+
+        sem = hexlang.hex_missing_semantic(hexlang.current(), st, t, n)
+        if sem is not None:
+            return sem
     return out
 
 
@@ -54,7 +61,9 @@ def hex_refuted(facts, t, n=None):
             return True
         if k == "type" and f[1] == t and "str" not in f[2]:
             return True
-    return False
+    from . import hexlang
+
+    return hexlang.hex_refuted_semantic(hexlang.current(), facts, t, n)
 
 
 GPG_ALTS = frozenset([frozenset(["other_headers", "signature"]), frozenset(["other_headers", "see_also", "signature"])])
